@@ -120,6 +120,11 @@ fn walk_val(ctx: &mut Ctx, v: &Value, path: &mut Path, in_disc: bool) -> Value {
                     match ctx.by_digest.get(dg).copied() {
                         Some(idx) => {
                             ctx.r.ref_count[idx] += 1;
+                            if ctx.r.ref_count[idx] > 1 {
+                                ctx.r.errors.push(format!("disclosure #{} is referenced more than once", idx));
+                                path.pop();
+                                continue;
+                            }
                             match ctx.decoded[idx].as_ref().and_then(Value::as_array) {
                                 Some(arr) if arr.len() == 2 && arr[0].is_string() => {
                                     ctx.r.hidden.insert(path.clone(), idx);
@@ -179,6 +184,11 @@ fn walk_obj(ctx: &mut Ctx, o: &Map<String, Value>, path: &mut Path, in_disc: boo
                     match ctx.by_digest.get(dg).copied() {
                         Some(idx) => {
                             ctx.r.ref_count[idx] += 1;
+                            if ctx.r.ref_count[idx] > 1 {
+                                ctx.r.errors.push(format!("disclosure #{} is referenced more than once", idx));
+                                entries.push((dg.to_string(), Some(idx), None));
+                                continue;
+                            }
                             match ctx.decoded[idx].as_ref().and_then(Value::as_array) {
                                 Some(arr) if arr.len() == 3 && arr[0].is_string() && arr[1].is_string() => {
                                     let name = arr[1].as_str().unwrap().to_string();
